@@ -197,13 +197,18 @@ class Ctx:
         ev_dir = os.path.join(ROOT, "evidence")
         os.makedirs(ev_dir, exist_ok=True)
         rep_dir = os.path.join(ROOT, "replays", self.prop)
+        if os.path.isdir(rep_dir) and self.replay is None:
+            pre = "%s_s%d_" % (self.tier, self.seed)
+            for f in os.listdir(rep_dir):
+                if f.startswith(pre):
+                    os.remove(os.path.join(rep_dir, f))
         lines = []
         rc = 0
         # dedupe violations by (kind, mechanism-ish key)
         shown = 0
         seen = set()
         for w in self.violations:
-            k = (w.get("kind"), w.get("dedupe", stable_hash(w)))
+            k = (w.get("kind"), stable_hash(w.get("dedupe", w)))
             if k in seen:
                 continue
             seen.add(k)
